@@ -129,6 +129,18 @@ T = [
  ("R3-C17-reserve-counts-tombstones-free", "C17", "/tmp/seed3/C17-out", "patch2.diff", "demo2/crates/linear-hashtbl/tests/seeded_C17_2.rs", "r3-C17b", ["r3-C17b"], "reserve treats tombstones as free: a low element count with tombstones over >= 16 home slots leaves no free slot, lookups of absent keys never terminate"),
  ("R3-C18-aiger-ascii-fairness-spans", "C18", "/tmp/seed3/C18-out", "patch.diff", "seeded_C18.rs", "r3-C18a", ["r3-C18a", "r3-C18a2"], "ASCII AIGER 1.9 file with more fairness constraints than justice literals: the surplus fairness literals stay untranslated"),
  ("R3-C18-nnf-literal-min-i64", "C18", "/tmp/seed3/C18-out", "patch2.diff", "seeded_C18_2.rs", "r3-C18b", ["r3-C18b", "r3-C18b2"], "NNF token `L -9223372036854775808`: abs overflow panic instead of a diagnostic (builds with overflow checks)"),
+
+ # round 4 (session 3): ten properties with intricate mechanisms; agents were given the list of mechanisms used before
+ ("R4-C01-find-stops-at-tombstone", "C01", "/tmp/seed4/C01/out", "patch.diff", "seeded_C01.rs", "r4-C01", ["r4-C01"], "RawTable::find (used only by LevelView::get/remove, i.e. reordering) stops at a tombstone: build, drop, gc (tombstones), swap a level whose new cofactor equals a live node behind a tombstone, derive again: duplicate node, different handle"),
+ ("R4-C03-levelswap-skips-dead-node", "C03", "/tmp/seed4/C03/out", "patch.diff", "seeded_C03.rs", "r4-C03", ["r4-C03"], "level_swap skips unreferenced nodes of the old upper level instead of re-inserting them; one that is needed again as a new child is revived through the taken table's lookup but listed in no level (dropped-but-uncollected node, then a swap that needs it, visited before its user)"),
+ ("R4-C05-gc-skips-terminals-when-no-inner", "C05", "/tmp/seed4/C05/out", "patch.diff", "seeded_C05.rs", "r4-C05", ["r4-C05"], "MTBDD: a collection that removes no inner node skips the terminal manager's gc; unreferenced terminals survive, terminal capacity is not restored"),
+ ("R4-C06-bdd-quant-cache-key-shadowed", "C06", "/tmp/seed4/C06/out", "patch.diff", "seeded_C06.rs", "r4-C06", ["r4-C06"], "BDD quant memoises under (f, vars minus top variable) but looks up under the full popped set: exists over {x0,x1} then over {x1} on the same node, no gc in between (the opposite order is correct)"),
+ ("R4-C07-terminal-retain-load-store", "C07", "/tmp/seed4/C07/out", "patch.diff", "seeded_C07.rs", "r4-C07", ["r4-C07", "r4-C07b"], "MTBDD terminal reference-count increment is load + store instead of fetch_add: two threads cloning/dropping handles of one terminal at the same moment lose updates (count too low: freed while handles alive; too high: never collected)"),
+ ("R4-C08-remove-last-slot-free", "C08", "/tmp/seed4/C08/out", "patch.diff", "seeded_C08.rs", "r4-C08", ["r4-C08"], "RawTable::remove_at_slot of the LAST slot treats 'no next element' as free although the probe chain wraps to slot 0 (only reachable through LevelView::remove during reordering): wrapped entries become unreachable, duplicates after the reorder"),
+ ("R4-C12-bdd-f64-scale-1021", "C12", "/tmp/seed4/C12/out", "patch.diff", "seeded_C12.rs", "r4-C12", ["r4-C12"], "simple BDD sat_count into F64 with exactly 1021 variables: terminal value not scaled down (`>` for `>=`) while the result is scaled up"),
+ ("R4-C14-applyquant-collapsed-operand-leak", "C14", "/tmp/seed4/C14/out", "patch.diff", "seeded_C14.rs", "r4-C14", ["r4-C14"], "BDD apply_exists/forall/unique whose operator collapses to one operand (f and T, f xor T, f and f) and whose remaining quantification runs out of memory: the collapsed operand is never released"),
+ ("R4-C15-ids-duplicates-accepted", "C15", "/tmp/seed4/C15/out", "patch.diff", "seeded_C15.rs", "r4-C15", ["r4-C15"], "DDDMP header with a repeated support variable in .ids (`.ids 1 1`): accepted (is_sorted instead of strictly sorted); with 2.0-style names the name reconstruction panics"),
+ ("R4-C20-tryremove-and-or", "C20", "/tmp/seed4/C20/out", "patch.diff", "seeded_C20.rs", "r4-C20", ["r4-C20"], "index manager + apply cache + ZBDD only: try_remove_node frees a node outside a prepared gc/reorder (`||` became `&&`); operation on the power-set node, drop, add_vars, same operation: stale cache entry on a recycled slot"),
 ]
 summary = []
 for sid, prop, out, patch, demo, conf, evals, needs in T:
